@@ -100,6 +100,12 @@ def main(tier, seed):
     from opfython.models.semi_supervised import SemiSupervisedOPF
     from opfython.models.knn_supervised import KNNSupervisedOPF
     from opfython.models.unsupervised import UnsupervisedOPF
+    class ConfigChanged(Exception):
+        pass
+    CFG = dict(sup=lambda mt: dict(distance=mt, pre=False, max_k=None, min_k=None), semi=lambda mt: dict(distance=mt, pre=False, max_k=None, min_k=None),
+               prune=lambda mt: dict(distance=mt, pre=False, max_k=None, min_k=None),
+               knn=lambda mt: dict(distance=mt, pre=False, max_k=2, min_k=None), unsup=lambda mt: dict(distance=mt, pre=False, max_k=UNSUP_MAXK, min_k=1))
+    UNSUP_MAXK = 2
     nm = 40 if tier == "quick" else 2500
     mods = dict(runs=0, readonly=0)
     for i in range(nm):
@@ -112,6 +118,15 @@ def main(tier, seed):
         Xq = np.array([[rng.choice([0.0, rng.uniform(0.1, 5)]) for _ in range(dim)] for _ in range(4)])
         Yq = np.array([base, base + 1, base, base + 1])
         readonly = (i % 10) >= 5
+        wide = kind == "unsup" and (i // 5) % 3 == 1
+        if wide:
+            # two tight, far-apart groups and a k range reaching beyond n-1: the search stops at the first zero cut, so the
+            # large max_k is legal - and must still be the model's max_k afterwards
+            h_ = n // 2
+            X = np.array([[(0.0 if j < h_ else 1000.0) + rng.uniform(0.1, 1.0) for _ in range(dim)] for j in range(n)])
+            UNSUP_MAXK = n + 2
+        else:
+            UNSUP_MAXK = 2
         arrays = dict(X=X, Y=Y, Xq=Xq, Yq=Yq)
         before = {k: v.tobytes() for k, v in arrays.items()}
         if readonly:
@@ -130,12 +145,22 @@ def main(tier, seed):
                 # pruning drops training samples; it must build the reduced set afresh, not compact the caller's arrays
                 m = SupervisedOPF(distance=metric); m.prune(X, Y, Xq, Yq, n_iterations=2); p = m.predict(Xq)
             else:
-                m = UnsupervisedOPF(min_k=1, max_k=2, distance=metric); m.fit(X, Y); p = m.predict(Xq)
+                m = UnsupervisedOPF(min_k=1, max_k=UNSUP_MAXK, distance=metric); m.fit(X, Y); p = m.predict(Xq)
             st = [(float(nd.cost), int(nd.pred), int(nd.predicted_label), int(nd.cluster_label)) for nd in m.subgraph.nodes]
+            # the configuration the caller chose is an argument value too: training must not rewrite it (a model whose
+            # max_k / metric drifts with what it was trained on gives history-dependent results when trained again)
+            cfg_now = dict(distance=m.distance, pre=m.pre_computed_distance, max_k=getattr(m, "max_k", None), min_k=getattr(m, "min_k", None))
+            if cfg_now != CFG[kind](metric):
+                raise ConfigChanged("%s: configuration after fit/predict is %r, constructed with %r" % (kind, cfg_now, CFG[kind](metric)))
             return st, [list(map(int, q)) for q in p] if isinstance(p, tuple) else list(map(int, p))
         desc = dict(model=kind, metric=metric, X=X.tolist(), Y=Y.tolist(), Xq=Xq.tolist(), readonly=readonly)
         try:
             r1 = run()
+        except ConfigChanged as ex:
+            nviol += 1
+            if nviol <= 3:
+                rep.violation("training rewrote the model's configuration - " + str(ex), desc, key="determinism")
+            continue
         except ValueError as ex:
             if "read-only" in str(ex):
                 nviol += 1
